@@ -1,8 +1,8 @@
-\* exhaustive: the small one-symbol grammar (12 terms; t, -t, t+t', t-t', Max, Min) x boxes
+\* exhaustive: the small one-symbol grammar (12 terms; t, -t, t+t', t-t', Max, Min) x boxes 1..4, 1..8
 CONSTANTS
   NS = 1
   His = {4, 8}
-  Los = {1, 2}
+  Los = {1}
   N = 0
   Small = TRUE
 INIT Init
